@@ -318,6 +318,7 @@ func senGen(args []string) {
 	tier := fs.String("tier", "quick", "quick|thorough")
 	shp := fs.String("shapes", "", "ndjson of TLC-enumerated tree shapes")
 	pred := fs.String("pred", "", "ndjson of strings the SenText design check predicts not to survive")
+	tbl := fs.String("tables", "", "ndjson of TLC-enumerated table shapes (rows x keys, present/absent)")
 	fs.Parse(args)
 	quick := *tier != "thorough"
 	r := rand.New(rand.NewSource(seed()))
@@ -428,6 +429,10 @@ func senGen(args []string) {
 	for k, t := range []M{aArr(aStr("+"), aStr("a b")), aArr(aInt(1), aStr("+"), aStr("a b")), aArr(aStr("x"), aStr("+"), aStr("a b")),
 		aObj("a", aStr("x"), "b", aStr("+"), "c", aStr("a b")), aArr(aStr("+a"), aStr("")), aArr(aArr(), aStr("+"), aStr("a b"))} {
 		emit(t, sopts(k), []pcfg{pcfgOf(k + 1)}, "plus")
+	}
+	// tables for the aligned layout of pretty.SEN / WriteSEN (quoted and bare keys mixed, missing columns)
+	for i, tc := range tableCases(*tbl, quick) {
+		emit(tc.tree, sopts(i%16), tc.p, "table")
 	}
 	// (4) numbers
 	for _, i := range append([]int64{0}, intLeaves...) {
